@@ -5,7 +5,7 @@ import ast
 
 from sa.core import AnalysisError, unparse, walk_no_nested
 from sa.spaces import Classifier, key_test, table_kind
-from sa.terms import Expander, T
+from sa.terms import Expander, T, canon
 from . import idx
 
 LEVEL = "other"
@@ -32,6 +32,8 @@ def check(repo, col, tier):
     col.rule("R-C08-time", "padding / truncation / transposition of externals", 6)
     col.rule("R-C08-recs", "recs = concat([init, recordings[:n]]).T", 3)
     col.rule("R-C08-sibling", "stimulate/clamp and their data_ twins agree", 6)
+    col.rule("R-C08-charge", "a stimulus of I nA adds I*dt of charge to its target compartment, whatever its geometry", 10)
+    _charge(repo, col)
     col.rule("R-C08-pairing", "values and row indices of inputs are extended in the same order", 3)
     cl = idx.compute_slots(repo, col, "R-C08-space", emit=("jaxedges", "rec_index", "external_inds"))
     _space_uses(repo, col, cl)
@@ -160,6 +162,8 @@ def _space_uses(repo, col, cl: Classifier):
 def _pairing(repo, col):
     """Values and row indices of external inputs are extended in the same order."""
     R = "R-C08-pairing"
+    from . import c19
+    c19.pair_delete(repo, col, R)
     for file_fn in (("jaxley/integrate.py", "add_stimuli"), ("jaxley/integrate.py", "add_clamps")):
         fi = repo.func(*file_fn)
         ex = idx.expander(repo, fi)
@@ -480,7 +484,7 @@ def _sibling(repo, col):
         out = {}
         for n in walk_no_nested(fi.node):
             if isinstance(n, ast.Assert):
-                out["assert"] = ex.term(n.test).key()
+                out["assert"] = canon(ex.term(n.test)).key()
         # the value finally stored / returned: find jnp.repeat(...) ifexp
         rep = None
         for c in ex.calls:
@@ -491,9 +495,6 @@ def _sibling(repo, col):
         return out
 
     na, nb = norm_form(ea, a), norm_form(eb, b)
-
-    def canon(k, pa, pb):
-        return k
 
     # compare modulo the parameter names (values/state_array, key/state_name)
     def rename(s, m):
@@ -531,3 +532,48 @@ def _sibling(repo, col):
         v1, v2 = e1.term(c1[0].args[1]), e2.term(c2[0].args[1])
         col.check(v1.op == "param" and v2.op == "param", R, f2, f"{m1}/{m2} pass the caller's array unchanged",
                   "the input array is forwarded", f"{v1.short()} / {v2.short()}", node=c2[0])
+
+
+def _charge(repo, col):
+    """I nA on a compartment of membrane area A and specific capacitance cm: dV = I*dt / (cm*A), i.e. the charge
+    cm*A*dV equals I*dt.  Structural parts: (a) nA -> uA/cm^2 divides by the area of the compartment the current is
+    scattered into (same index for the gather of radius/length and for the additive scatter from zeros); (b) the
+    conversion formula is I/(2 pi r l) with the factor the units force; (c) in the voltage equation the stimulus term
+    has coefficient exactly 1/capacitance (decided on the algebraic form of `constant_terms`, however it is written)."""
+    R = "R-C08-charge"
+    from . import c02, cable
+    from sa.termalg import term_rat, coefficient
+    from sa.algebra import Rat, Und
+    c02._stim(repo, col, R)
+    cable.check_point_process(repo, col, R)
+    fi = repo.method("Module", "step")
+    ex = idx.expander(repo, fi)
+    val = None
+    for n in walk_no_nested(fi.node):
+        if isinstance(n, ast.Dict):
+            for k, v in zip(n.keys, n.values):
+                if isinstance(k, ast.Constant) and k.value == "constant_terms":
+                    val = v
+    if val is None:
+        raise AnalysisError("Module.step: `constant_terms` of the solver arguments not found")
+
+    def leaf(x):
+        if x.op == "ifexp" and T.find(x.args[1], lambda y: y.op == "mcall" and y.name == "_get_external_input") is not None:
+            return term_rat(x.args[1], leaf)  # the case "the module has a stimulus"
+        if x.op == "mcall" and x.name == "_get_external_input":
+            return Rat.atom("i_ext")
+        if x.op == "sub" and x.args[0].op == "param" and x.args[0].name == "params" and x.args[1].op == "const":
+            return Rat.atom("p_" + str(x.args[1].name))
+        return None
+
+    try:
+        form = term_rat(ex.term(val), leaf)
+        co = coefficient(form, "i_ext")
+    except Und as e:
+        col.unk(R, fi, "constant_terms", f"outside the analysable fragment: {e}", node=val)
+        return
+    want = Rat.const(1) / Rat.atom("p_capacitance")
+    col.check(co is not None and co.eq(want), R, fi, "stimulus current enters the voltage equation with coefficient 1/capacitance",
+              "d constant_terms / d i_ext == 1/params['capacitance']",
+              f"the coefficient of the stimulus current in `constant_terms` is {co} (expected 1/capacitance): a stimulus of I nA "
+              f"deposits a charge different from I*dt on compartments whose capacitance is not 1 uF/cm^2", node=val)
